@@ -1087,6 +1087,10 @@ class C04:
             keys = self._dynamic_group_names(fn)
         elif isinstance(v, ast.Dict) and all(isinstance(x, ast.Constant) for x in v.keys):
             keys = {x.value for x in v.keys}
+        elif isinstance(v, ast.DictComp) and len(v.generators) == 1 and isinstance(v.generators[0].iter, ast.Call) and norm(v.generators[0].iter.func).endswith(".groupdict().items") \
+                and isinstance(v.generators[0].target, ast.Tuple) and len(v.generators[0].target.elts) == 2 and norm(v.key) == norm(v.generators[0].target.elts[0]):
+            # {key: .. for key, found in m.groupdict().items() if ..}: a subset of the match's group names
+            keys = self._dynamic_group_names(fn)
         else:
             return None
         if keys is None:
